@@ -561,6 +561,11 @@ func (fr *Frame) enterLoop(st *State, li *loopInfo) {
 		x.vc.assume(tCmp(">=", ne, st.events))
 		st.events = ne
 	}
+	if mods.all {
+		x.havocAllHeaps(st)
+	} else {
+		x.havocHeapsMatching(st, mods.heaps)
+	}
 	var cells []*Cell
 	for c := range mods.cells {
 		cells = append(cells, c)
@@ -572,16 +577,11 @@ func (fr *Frame) enterLoop(st *State, li *loopInfo) {
 		x.refFacts(st, nv)
 		if old != nil {
 			nv.X = old.X
-			if cl, ok := old.X.(*IterState); ok {
-				nv.X = cl
+			if it, ok := old.X.(*mapIter); ok {
+				nv = &Val{Ty: old.Ty, L: []string{"0"}, X: x.havocMapIter(st, it)}
 			}
 		}
 		st.cells[c] = nv
-	}
-	if mods.all {
-		x.havocAllHeaps(st)
-	} else {
-		x.havocHeapsMatching(st, mods.heaps)
 	}
 	st.pc = x.vc.def("pc", sBool, st.pc)
 	fr.autoLoopFacts(st, li)
@@ -675,6 +675,18 @@ func (fr *Frame) loopEnv(st *State, li *loopInfo) *SpecEnv {
 		if rs, ok := li.stmt.(*ast.RangeStmt); ok {
 			if id, ok := rs.Key.(*ast.Ident); ok && id.Name != "_" {
 				env.vars[id.Name] = kv
+			}
+		}
+	}
+	// range over a map: visited(k) is the set of keys already iterated
+	for _, ins := range li.header.Instrs {
+		if nx, ok := ins.(*ssa.Next); ok {
+			if c := fr.iters[nx.Iter]; c != nil {
+				if v, ok := st.cells[c]; ok {
+					if it, ok := v.X.(*mapIter); ok {
+						env.visited = it.visited
+					}
+				}
 			}
 		}
 	}
